@@ -487,6 +487,7 @@ def const_py(c):
 
 
 LEAVES = {}
+NOT_COUNT = [0]
 
 
 def build(agg, p):
@@ -539,7 +540,16 @@ def _build(agg, p):
             for n in x["names"]:
                 q = getattr(q, n)
             return q != const_py(x["c"])
-        return ~build(agg, x)
+        inner = build(agg, x)
+        NOT_COUNT[0] += 1
+        if NOT_COUNT[0] % 2 == 0:
+            # the condition was used in a query of its own before it is negated (query objects are values: what
+            # ~p means does not depend on whether p was executed)
+            try:
+                len(agg.query(inner).fits)
+            except Exception:  # noqa: what the positive query does is examined where it is the case
+                pass
+        return ~inner
     if k == "and":
         return build(agg, p["x"]) & build(agg, p["y"])
     if k == "or":
